@@ -223,7 +223,19 @@ func (p *Program) verifyFunc(fc *FuncContract) (u *Unit) {
 		return u
 	}
 	x.vc.oblige(&Obligation{Name: fc.Key + "#cover.return", Kind: "cover", Func: fc.Key, Guard: out.reach, Goal: tTrue, Cover: true, Src: "some return is reachable"})
-	out.names = entry.names
+	{
+		// postconditions are evaluated over the entry names (parameters) plus the ghost loop counters
+		nm := map[string]Value{}
+		for k, val := range entry.names {
+			nm[k] = val
+		}
+		for k, val := range out.names {
+			if strings.HasPrefix(k, "#count") {
+				nm[k] = val
+			}
+		}
+		out.names = nm
+	}
 	opts.result = res
 	// outputs for replay: result leaves and final contents of pointer parameters' pointees
 	if res != nil {
